@@ -119,7 +119,7 @@ func lockstep(env *vh.Env, rep *vh.Report, fams []*family) {
 			defer wg.Done()
 			dead := isDead(f.typ)
 			for _, lc := range lockstepCases(f) {
-				for r := 0; r < reps && !dead; r++ {
+				for r := 0; r < reps && !dead && !(r >= 2 && phaseOver()); r++ {
 					hist, why := lockstepRun(f, lc)
 					if strings.Contains(why, "did not finish") {
 						dead = true // do not pile up watchdog waits on a type that hangs
